@@ -115,6 +115,11 @@ PROPS["C01"]["streams"] = [S("crash", 300, 8000, vm=(10, 100), vm_maxlen=8000), 
 PROPS["C08"]["streams"] = [S("stable", 120, 3000, vm=(5, 60), vm_maxlen=5000), S("seqapi", 100, 3000, vm=(3, 60), vm_maxlen=5000), S("crash", 100, 3000, vm=(4, 50), vm_maxlen=8000),
                            S("faults", 150, 3000, vm=(5, 50), vm_maxlen=8000)]
 
+# Props/Link.v (byte level <-> abstract files) is re-checked and audited with the properties whose
+# statements are about abstract files and whose content is bytes on disk
+for _p in ("C01", "C02", "C05"):
+    PROPS[_p]["extra_props"] = ["Link"]
+
 PROPS['C14'] = {'assumptions': ['single writer goroutine (StoreLogs/DeleteRange are issued by one thread of the schedule); any number of readers, stable-store callers and '
                  'Close callers',
                  'in-memory VFS/MetaStore emulate *os.File (read after Close fails) and BoltMetaDB (calls after Close fail)',
